@@ -53,6 +53,12 @@ M = [
  ("C05-send-queue-shared-by-all-nodes", "bromelia/setup.py", "        self._send_messages = queue.Queue()\n", "        if getattr(DiameterAssociation, '_shared_send', None) is None:\n            DiameterAssociation._shared_send = queue.Queue()\n        self._send_messages = DiameterAssociation._shared_send\n", ["C05"]),
  ("C08-stop-flag-shared-by-all-transports", "bromelia/transport.py", "class TcpConnection():\n", "class TcpConnection():\n    _stop_event = threading.Event()\n\n    @property\n    def _stop_threads(self):\n        return self._stop_event.is_set()\n\n    @_stop_threads.setter\n    def _stop_threads(self, value):\n        if value:\n            self._stop_event.set()\n        else:\n            self._stop_event.clear()\n\n", ["C08"]),
  ("C04-recv-queue-shared-by-all-nodes", "bromelia/setup.py", "        self._recv_messages = queue.Queue()\n", "        if getattr(DiameterAssociation, '_shared_recv', None) is None:\n            DiameterAssociation._shared_recv = queue.Queue()\n        self._recv_messages = DiameterAssociation._shared_recv\n", ["C04"]),
+ # batch 4 - "second use" (wave 18/19 widenings) and the three defects repaired on 2026-09-24, reverted
+ ("S2-decode-cache", "bromelia/base.py", "        msgs = []\n        index = 0\n\n        while index < len(stream):\n            header_stream", "        _c = globals().setdefault(\"_LOAD_CACHE\", {})\n        if stream in _c:\n            return list(_c[stream])\n        msgs = []\n        _c[bytes(stream)] = msgs\n        index = 0\n\n        while index < len(stream):\n            header_stream", ["C02"]),
+ ("S2-pop-after-notify", "bromelia/bromelia.py", "        self.pending_answers.pop(p_answer.msg.header.hop_by_hop, None)\n        p_answer.notify()", "        p_answer.notify()\n        self.pending_answers.pop(p_answer.msg.header.hop_by_hop, None)", ["C14"]),
+ ("S2-send_messages-unguarded", "bromelia/setup.py", "            if isinstance(msg, DiameterMessage):\n                if is_base_request(msg):", "            if False:\n                if is_base_request(msg):", ["C07"]),
+ ("S2-grouped-pop-by-equality", "bromelia/types.py", "        for index, _avp in enumerate(self._avps):\n            if _avp is item:\n                del self._avps[index]\n                break\n", "        self._avps.remove(item)\n", ["C01"]),
+ ("S2-association-kept-across-restarts", "bromelia/setup.py", "        self._association = DiameterAssociation(self._connection, self._base)\n        self._peer_state_machine", "        if self._association is None:\n            self._association = DiameterAssociation(self._connection, self._base)\n        self._peer_state_machine", ["C05"]),
 ]
 
 def main():
